@@ -47,7 +47,7 @@ CHECKS["C10"] = dict(
     design_ref="DESIGN.md section 3, C09/C10",
 )
 
-_RES_NOTE = "Bounds: lists of 3 citations over 9 abstract kinds (quick C07/C08 add the 4-citation slices over {full case, short} and {full case, supra}; thorough adds optional party names / reference name fields at length 3 and every 4-citation list over the 5-6 kinds the property is about - all 9 kinds at length 4 are 1.7 million paths, 67 minutes, per property); volumes, reporters, guessed editions, pages, party names, antecedents, pin cites and token indexes symbolic (integers unbounded). Stubs: hash_sha256 injective; strip_punct identity (names without punctuation); re.match on the pin cite by contract - the last two are discharged by lemmas run on the real functions with character-level symbolic strings (pin-cite lemma: _has_invalid_pin_cite on <=5/6 arbitrary characters and, with the first page as text, on every string of <=2/3 characters accepted by the database's page patterns; strip_punct lemma on <=2/3 characters). Trusted: interpreter (self-tested on extracted documents each run), z3, the reference model in vf/harness/c06.py."
+_RES_NOTE = "Bounds: lists of 3 citations over 9 abstract kinds (quick C07/C08 add the 4-citation slices over {full case, short} and {full case, supra}; thorough adds optional party names / reference name fields at length 3 and every 4-citation list over the 5-6 kinds the property is about - all 9 kinds at length 4 are 1.7 million paths, 67 minutes, per property); volumes, reporters, guessed editions, pages, party names, antecedents, pin cites and token indexes symbolic (integers unbounded). Stubs: hash_sha256 injective; strip_punct identity (names without punctuation); re.match on the pin cite by contract - the last two are discharged by lemmas run on the real functions with character-level symbolic strings (pin-cite lemma: _has_invalid_pin_cite on <=6/8 arbitrary characters and, with the first page as text, on every string of <=2/3 characters accepted by the database's page patterns; strip_punct lemma on <=2/3 characters). Trusted: interpreter (self-tested on extracted documents each run), z3, the reference model in vf/harness/c06.py."
 CHECKS["C06"] = dict(
     engine="symex", category="other",
     text="Bounded symbolic verification of the real resolve_citations and citation/Resource hash+eq source: on every feasible path the mapping's values are disjoint ordered sub-sequences of the input led by a full citation, every full citation is under exactly one resource, unknown citations never appear, and two full citations share a resource iff the specification equality (volume, page, normalised reporter, no placeholder page - for journal citations too) holds - a z3 validity query per path; a history phase corrects a resolved citation's page through its public groups and resolves again (the grouping must follow).",
